@@ -54,3 +54,178 @@ def good_verdict(seg, phase_edge, tol=1e-12):
     if dontcare:
         return None, reasons
     return True, reasons
+
+
+# ----------------------------------------------------------------------------
+# sifting (C01-C08): extrema, padding, envelopes, single-IMF extraction
+
+from scipy import interpolate as _interp  # noqa: E402
+
+
+def strict_extrema(x, kind='max'):
+    """Interior indices i with x[i] strictly greater (smaller) than both neighbours."""
+    x = np.asarray(x, dtype=float)
+    if x.size < 3:
+        return np.zeros(0, dtype=int)
+    c = x[1:-1]
+    if kind == 'max':
+        m = (c > x[:-2]) & (c > x[2:])
+    else:
+        m = (c < x[:-2]) & (c < x[2:])
+    return np.where(m)[0] + 1
+
+
+def parabolic_vertex(ym, y0, yp):
+    """Vertex (offset from the centre sample, value) of the parabola through (-1,ym),(0,y0),(1,yp)."""
+    den = ym - 2 * y0 + yp
+    delta = 0.5 * (ym - yp) / den
+    val = y0 - 0.25 * (ym - yp) * delta
+    return delta, val
+
+
+def find_extrema(x, kind='peaks', parabolic=False):
+    """(locs, mags) of peaks / troughs / peaks of |x|."""
+    x = np.asarray(x, dtype=float)
+    if kind == 'peaks':
+        y, sgn = x, 1.0
+    elif kind == 'troughs':
+        y, sgn = -x, -1.0
+    else:
+        y, sgn = np.abs(x), 1.0
+    loc = strict_extrema(y, 'max')
+    if loc.size == 0:
+        return np.zeros(0), np.zeros(0)
+    if parabolic:
+        d, v = parabolic_vertex(y[loc - 1], y[loc], y[loc + 1])
+        return loc + d, sgn * v
+    return loc, sgn * y[loc]
+
+
+DEFAULT_LOC_PAD = {'mode': 'reflect', 'reflect_type': 'odd'}
+DEFAULT_MAG_PAD = {'mode': 'median', 'stat_length': 1}
+
+
+def padded_extrema(x, kind='peaks', pad_width=2, parabolic_extrema=False, loc_pad_opts=None, mag_pad_opts=None):
+    """Extrema plus np.pad-ed copies beyond both ends (documented defaults: odd reflection of the
+    locations, edge-median of the magnitudes), repeated until both record ends are covered."""
+    x = np.asarray(x, dtype=float).ravel()
+    locs, mags = find_extrema(x, kind, parabolic_extrema)
+    if locs.size < 2:
+        return None, None
+    lo = dict(loc_pad_opts) if loc_pad_opts else dict(DEFAULT_LOC_PAD)
+    mo = dict(mag_pad_opts) if mag_pad_opts else dict(DEFAULT_MAG_PAD)
+    lmode = lo.pop('mode')
+    mmode = mo.pop('mode')
+    pw = min(pad_width, locs.size)
+    if not pw:
+        return locs, mags
+    L = np.pad(locs, pw, lmode, **lo)
+    M = np.pad(mags, pw, mmode, **mo)
+    guard = 0
+    while L.max() < x.size or L.min() >= 0:
+        L = np.pad(L, pw, lmode, **lo)
+        M = np.pad(M, pw, mmode, **mo)
+        guard += 1
+        if guard > 10000:
+            raise RuntimeError('padding does not reach the record ends')
+    return L, M
+
+
+def interpolate(locs, mags, t, method='splrep'):
+    if method == 'splrep':
+        return _interp.splev(t, _interp.splrep(locs, mags))
+    if method in ('pchip', 'mono_pchip'):
+        return _interp.PchipInterpolator(locs, mags)(t)
+    raise ValueError(method)
+
+
+def envelope(x, which='upper', interp_method='splrep', extrema_opts=None):
+    """Envelope through the padded extrema, evaluated at the sample indices 0..N-1 (None if < 2 extrema)."""
+    x = np.asarray(x, dtype=float).ravel()
+    kind = {'upper': 'peaks', 'lower': 'troughs', 'combined': 'abs_peaks'}[which]
+    eo = dict(extrema_opts) if extrema_opts else {}
+    L, M = padded_extrema(x, kind, eo.get('pad_width', 2), eo.get('parabolic_extrema', False),
+                          eo.get('loc_pad_opts'), eo.get('mag_pad_opts'))
+    if L is None:
+        return None
+    return interpolate(L, M, np.arange(x.size), interp_method)
+
+
+class RefResult:
+    __slots__ = ('kind', 'imf', 'flag', 'niters', 'margin_tie', 'margin_stop', 'exit', 'note')
+
+    def __init__(self):
+        self.kind = None        # 'imf' | 'input' | 'error'
+        self.imf = None
+        self.flag = None
+        self.niters = 0
+        self.margin_tie = np.inf   # smallest |adjacent difference| / scale seen on any iterate
+        self.margin_stop = np.inf  # smallest relative distance of a stop metric from its threshold
+        self.exit = None        # 'no-extrema-input' | 'extrema-vanished' | 'stop-rule' | 'limit'
+        self.note = ''
+
+
+def ref_extract(x, env_step_size=1, max_iters=1000, stop_method='sd', sd_thresh=.1,
+                rilling_thresh=(0.05, 0.5, 0.05), envelope_opts=None, extrema_opts=None,
+                hard_cap=None):
+    """The single-IMF sifting iteration as the property states it.
+
+    iterate_{j+1} = iterate_j - step * mean(upper_j, lower_j); the result is the iterate at which the stop
+    rule fires with its *full* envelope mean removed (fixed: the max_iters-th iterate; sd / rilling: the
+    first iterate meeting the criterion) or else the first iterate with too few extrema. ``niters`` counts
+    envelope evaluations. The iteration limit is *not* applied here (the caller compares niters with it);
+    hard_cap only bounds the reference's own work.
+    """
+    x = np.asarray(x, dtype=float).ravel()
+    eo = envelope_opts or {}
+    method = eo.get('interp_method', 'splrep')
+    r = RefResult()
+    scale = np.abs(x).max() if x.size else 0.0
+    scale = scale if scale > 0 else 1.0
+    proto = x.copy()
+    cap = hard_cap if hard_cap is not None else max_iters + 3
+    n = 0
+    while True:
+        n += 1
+        if proto.size > 1:
+            r.margin_tie = min(r.margin_tie, float(np.abs(np.diff(proto)).min()) / scale)
+        up = envelope(proto, 'upper', method, extrema_opts)
+        lo = envelope(proto, 'lower', method, extrema_opts)
+        if up is None or lo is None:
+            r.niters = n
+            r.imf = proto
+            if n == 1:
+                r.kind, r.flag, r.exit = 'input', False, 'no-extrema-input'
+            else:
+                r.kind, r.flag, r.exit = 'imf', True, 'extrema-vanished'
+            return r
+        avg = np.mean([up, lo], axis=0)
+        x1 = proto - avg
+        if stop_method == 'sd':
+            metric = np.sum((proto - x1) ** 2) / np.sum(proto ** 2)
+            stop = metric < sd_thresh
+            r.margin_stop = min(r.margin_stop, abs(metric - sd_thresh) / sd_thresh)
+        elif stop_method == 'rilling':
+            sd1, sd2, tol = rilling_thresh
+            amp = np.abs(up - lo) / 2
+            with np.errstate(divide='ignore', invalid='ignore'):
+                ev = np.abs((up + lo) / 2) / amp
+            if not np.all(np.isfinite(ev)):
+                r.note = 'rilling-zero-amplitude'
+            frac = np.mean(ev > sd1)
+            stop = not (frac > tol or np.any(ev > sd2))
+            with np.errstate(invalid='ignore'):
+                m = min(np.nanmin(np.abs(ev - sd1)) / sd1, np.nanmin(np.abs(ev - sd2)) / sd2)
+            # the fraction test flips when one more / one fewer sample exceeds sd1
+            r.margin_stop = min(r.margin_stop, float(m), abs(frac - tol) * x.size)
+        elif stop_method == 'fixed':
+            stop = (n == max_iters)
+        else:
+            raise ValueError(stop_method)
+        if stop:
+            r.kind, r.flag, r.exit, r.niters, r.imf = 'imf', True, 'stop-rule', n, x1
+            return r
+        if n >= cap:
+            r.kind, r.exit, r.niters = 'error', 'limit', n
+            return r
+        proto = proto - env_step_size * avg
